@@ -62,6 +62,16 @@ func powHashValue(b *nom.AccountBlock) uint64 {
 	return binary.LittleEndian.Uint64(crypto.Hash(calc)[:8])
 }
 
+// labPowOK: does the block's nonce hash at or above 2^64 - 2^64/d ? (independent of pow.CheckPoWNonce)
+func labPowOK(b *nom.AccountBlock) bool {
+	if b.Difficulty == 0 {
+		return true
+	}
+	two64 := new(big.Int).Lsh(big.NewInt(1), 64)
+	thr := new(big.Int).Sub(two64, new(big.Int).Quo(two64, new(big.Int).SetUint64(b.Difficulty)))
+	return new(big.Int).SetUint64(powHashValue(b)).Cmp(thr) >= 0
+}
+
 func c12Pow(run *core.Run) {
 	r := rand.New(rand.NewSource(run.Seed))
 	two64 := new(big.Int).Lsh(big.NewInt(1), 64)
@@ -266,11 +276,16 @@ func plasmaReplay(run *core.Run, b *plasmaBehaviour, bi int, outcomes map[string
 			if s.Genuine {
 				copy(blk.Nonce.Data[:], pow.GetPoWNonce(new(big.Int).SetUint64(blk.Difficulty), pow.GetAccountBlockHash(blk)))
 			} else {
-				for n := uint64(1); ; n++ { // a nonce that does NOT satisfy the claim
+				found := false
+				for n := uint64(1); n < 1000000; n++ { // a nonce that does NOT satisfy the claim (by the lab's own arithmetic, not the code's)
 					binary.LittleEndian.PutUint64(blk.Nonce.Data[:], n)
-					if !pow.CheckPoWNonce(blk) {
+					if !labPowOK(blk) {
+						found = true
 						break
 					}
+				}
+				if !found {
+					core.Fatal("no nonce below a million fails difficulty %d", blk.Difficulty)
 				}
 			}
 		}
